@@ -43,7 +43,7 @@ def budget(tier):
 
 def generate(tp: Tape, tier: str):
     profile = tp.weighted([("multi", 5), ("general", 4), ("reduce", 3), ("rechunk", 3)])
-    case = c01.generate(tp, tier, profile=profile)
+    case = c01.generate(tp, tier, profile=profile, allow_zero_default=True)
     return case
 
 
